@@ -262,6 +262,7 @@ func (x *exec) run() {
 		st.assume(t, fmt.Sprintf("requires[%d] %s", i, r.Pos))
 	}
 	x.old = st.heapSnapshot()
+	x.useLemmas(st)
 	// vacuity guard: the precondition must be satisfiable
 	x.res.Queries = append(x.res.Queries, &Query{Func: x.res.Key, Ob: x.obName("cover.requires"), Kind: "cover", Cover: true,
 		Hyps: append([]*smt.Term{}, st.pc...), HypLabs: append([]string{}, st.pcLab...), Goal: smt.False,
